@@ -145,12 +145,31 @@ def statement_family():
         add('if_elif', ('if', c, body, [(c, body)], None, [t0, t1]))
         add('if_elif_elif_else', ('if', c, body, [(c, body), (('bool', 'true'), [])], [('return', None)], [t0, t1, t2]))
         add('if_nested', ('if', c, [('if', c, body, [], body, [t1])], [(c, [('while', c, body, t2)])], [], [t0, t1]))
+    # blocks that begin with a function invocation '::f()' right after a condition / set that ends in a name or a number
+    callf = ('call', None, ('fcall', 'f', [('a', I(1))]))
+    cn = ('bin', '<', V('i'), V('n'))
+    for t0 in (False, True):
+        add('if_then_call', ('if', cn, [callf] + body, [(c, [callf])], [callf], [t0, t0]))
+        add('if_name_call', ('if', V('more'), [callf], [(V('less'), [callf, ('break',)])], None, [t0, t0]))
+        add('while_call', ('while', V('more'), [callf] + body, t0))
+        add('while_number_call', ('while', c, [callf], t0))
+        add('foreach_call', ('foreach', 'v', 'vs', [callf, ('continue',)], t0))
+        add('if_unary_call', ('if', ('un', 'not_empty', ('field', ('self',), 'other')), [callf], [], None, [t0]))
     for k in ('relate', 'unrelate'):
         for ph in (None, T('is a'), ID('prev')):
             for using in (None, 'c'):
                 add(k, (k, 'a', 'b', 'R1', ph, using))
                 add(k + '_self', (k, 'self', 'b', 'R12', ph, using))
                 add(k + '_to_self', (k, 'a', 'self', 'R1', ph, using))
+    # a relationship id is any identifier to the grammar (R1, but also Rel, r2, R1b, R_1 ...); surrounded by other
+    # statements so that a statement lost in the parser's error recovery shows
+    for k in ('relate', 'unrelate'):
+        for rid in ('Rel', 'r2', 'R1b', 'R_1', 'R'):
+            add(k + '_relname', ('assign', V('x'), I(1), False), (k, 'a', 'b', rid, None, None), ('assign', V('y'), I(2), False))
+        add(k + '_relname_phrase_using', ('assign', V('x'), I(1), False), (k, 'a', 'b', 'Assoc7', T('is a'), 'c'),
+            ('assign', V('y'), I(2), False))
+    add('select_related_relname', ('assign', V('x'), I(1), False), ('selrel', 'many', 'xs', V('h'), [('K', 'Rel', None), ('B', 'r3', ID('next'))], None),
+        ('assign', V('y'), I(2), False))
     w = ('bin', '==', ('field', ('selected',), 'Id'), I(1))
     for card in ('any', 'many'):
         for inst_of in (True, False):
@@ -178,7 +197,10 @@ def statement_family():
 # layouts
 # ---------------------------------------------------------------------------
 
-GAP_ALTERNATIVES = ['', '  ', '\t', '\n', ' /* c */ ', ' // c\n', '\r\n', '\n\n/* a\n b **/\n']
+# the last two: a lone carriage return is blank space and starts no line; comments may hold any character, among them the
+# other characters str.splitlines() treats as line boundaries (FF, VT, FS, NEL, LS) -- lines are counted in '\n' only
+GAP_ALTERNATIVES = ['', '  ', '\t', '\n', ' /* c */ ', ' // c\n', '\r\n', '\n\n/* a\n b **/\n',
+                    ' \r ', '\n /*\x0c\x0b\x1c\x85\u2028*/ //\x0c\u2029\r c\n ']
 INNER_ALTERNATIVES = ['  ', '\t', '\n', ' \n ', '\r\n']
 
 
